@@ -22,7 +22,7 @@ PROPS = {
     'C06': _p(['E5', 'E3']),
     'C07': _p(['E9']),
     'C08': _p(['E3', 'E4', 'E5', 'EM']),
-    'C09': _p(['E2', 'E3', 'E4', 'E9', 'EM']),
+    'C09': _p(['E2', 'E3', 'E4', 'E9', 'E5', 'EM']),
     'C10': _p(['E4', 'E9', 'E3', 'E5', 'EM']),
     'C11': _p(['E3', 'E4', 'EM']),
     'C12': _p(['E6', 'E3', 'E4', 'E5', 'E7', 'EM']),
